@@ -128,6 +128,17 @@ VERIF_MAIN
             CHECK(v_eq(z, e, 32), "scalarmult = encode((clamped?) n mod 2^255 * P)");
             CHECK((r == 0) == (!inf && nz), "scalarmult reports -1 exactly for an identity result or the all-zero scalar");
         }
+        /* base-point forms */
+# if CLAMP
+        r = crypto_scalarmult_ed25519_base(z, in.x);
+# else
+        r = crypto_scalarmult_ed25519_base_noclamp(z, in.x);
+# endif
+        ied_base_mult_bytes(e, t);
+        inf = e[0] == 1 && (e[31] & 0x7f) == 0;
+        for (i = 1; i < 31; i++) if (e[i]) inf = 0;
+        CHECK(v_eq(z, e, 32), "scalarmult_base = encode((clamped?) n mod 2^255 * B)");
+        CHECK((r == 0) == (!inf && nz) && (r == 0 || r == -1), "scalarmult_base reports -1 exactly for an identity result or the all-zero scalar");
         (void) t64;
     }
 #else
